@@ -655,7 +655,16 @@ private:
         std::ostringstream oss;
         oss << "STATUS:" << (success ? "OK" : "ERROR") << "\n";
         for (const auto& [key, value] : fields) {
-            oss << key << ':' << value << "\n";
+            // Multi-line values are folded: every embedded newline is followed by a space, so that
+            // continuation lines can be told apart from headers and from the terminating empty line.
+            oss << key << ':';
+            for (const char ch : value) {
+                oss << ch;
+                if (ch == '\n') {
+                    oss << ' ';
+                }
+            }
+            oss << "\n";
         }
         oss << "\n";
         const auto response = oss.str();
